@@ -21,7 +21,7 @@ SLACK = 1.2
 WATCHDOG = 3.0
 
 SERVER_POINTS = ['after-banner', 'after-ehlo', 'after-mail', 'after-rcpt', 'after-noop', 'after-rset', 'mid-line', 'noop-plus-partial', 'eod-plus-partial', 'trickle-line', 'after-354',
-                 'inside-data', 'trickle-data', 'after-eod', 'auth-challenge', 'auth-initial', 'auth-second', 'auth-refused-busy', 'starttls-handshake', 'tls-immediate', 'tls-close']
+                 'inside-data', 'trickle-data', 'slow-data-complete', 'slow-line-complete', 'after-eod', 'auth-challenge', 'auth-initial', 'auth-second', 'auth-refused-busy', 'starttls-handshake', 'tls-immediate', 'tls-close']
 RELAY_STAGES = ['connect', 'banner', 'ehlo', 'helo', 'starttls', 'starttls-handshake', 'tls-immediate', 'auth', 'mail', 'rcpt', 'data', 'eod', 'rset', 'quit', 'tls-close']
 
 
@@ -127,6 +127,7 @@ def run_server(case, model):
     ref = {'t': time.time()}         # the moment the last completed step ended (= the stalled wait began)
     steps = []
     trickler = None
+    slow_complete = False
     try:
         with gevent.Timeout(WATCHDOG + 1):
             if point == 'tls-immediate':
@@ -142,6 +143,20 @@ def run_server(case, model):
                     send(b'EHLO client.example\r\n'); reply(); ref['t'] = time.time()
                     if point == 'after-ehlo':
                         pass
+                    elif point == 'slow-line-complete':
+                        # a COMPLETE command, but in pieces a third of the command timeout apart and twice the timeout in all: every
+                        # single gap is within the timeout, the line as a whole is not (the deadline is for the whole line, not per piece:
+                        # the model mutant `timeouts-deadline-per-piece` survived the campaign until this point and the next existed)
+                        def trickle():
+                            try:
+                                for ch in (b'N', b'O', b'O', b'P', b'\r', b'\n'):
+                                    gevent.sleep(CMD_T / 3.0)
+                                    sock['s'].sendall(ch)
+                            except OSError:
+                                pass
+                        trickler = gevent.spawn(trickle)
+                        steps = ['command:0', 'command:' + ','.join([str(ms(CMD_T / 3.0))] * 6)]
+                        slow_complete = True
                     elif point == 'mid-line':
                         send(b'MAIL FR')
                     elif point == 'trickle-line':
@@ -219,6 +234,18 @@ def run_server(case, model):
                                         except OSError:
                                             pass
                                     trickler = gevent.spawn(trickle)
+                                elif point == 'slow-data-complete':
+                                    # the whole message, end-of-data line included, in eight pieces a quarter of the data timeout apart
+                                    def trickle():
+                                        try:
+                                            for piece in (b'Subject: x\r\n', b'\r\n', b'l1\r\n', b'l2\r\n', b'l3\r\n', b'l4\r\n', b'l5\r\n', b'.\r\n'):
+                                                gevent.sleep(DATA_T / 4.0)
+                                                sock['s'].sendall(piece)
+                                        except OSError:
+                                            pass
+                                    trickler = gevent.spawn(trickle)
+                                    steps = ['command:0', 'data:' + ','.join([str(ms(DATA_T / 4.0))] * 8)]
+                                    slow_complete = True
                                 elif point == 'after-eod':
                                     send(b'Subject: x\r\n\r\nbody\r\n.\r\n'); reply(); ref['t'] = time.time()
                                     steps = ['command:0', 'command:inf']
@@ -279,6 +306,14 @@ def run_server(case, model):
         if elapsed > expect_hi + SLACK:
             hits.append(hit('c14.server-session-held-too-long.' + point, 'the session outlived its timeout by far',
                             observed={'elapsed': round(elapsed, 3)}, expected=expect_hi))
+        if slow_complete and mismatch is None:
+            # which wait ended the session: the model says the slow one itself (index 1); had it completed, the server would have answered
+            # it (250) before the 421 of the idle wait that follows
+            k = int(ending.split(':')[1])
+            answered = 250 in last_codes
+            if (k == 1) == answered:
+                mismatch = {'op': 'timeouts server', 'impl': 'the slow %s %s' % ('message' if 'data' in point else 'line', 'was answered' if answered else 'was cut'),
+                            'model': ending, 'point': point}
         if point not in ('tls-immediate', 'starttls-handshake') and 421 not in last_codes:
             hits.append(hit('c14.no-421-on-timeout.' + point, 'the session ended without the 421 reply', observed=last_codes))
     return CaseResult(mismatch, hits, ('server', point, case['rep']), ['server', point])
